@@ -3,12 +3,12 @@ CONSTANTS
   Writers = {1, 2, 3}
   Readers = {5}
   NTxn = 1
-  NReads = 1
-  MCHows = {"commit", "rollback", "empty"}
-  Plans <- MCPlans
+  NReads = 2
+  MCHows = {"commit", "rollback"}
+  Plans <- MCPlansLive
   RPlans <- MCRPlans
   RModes <- MCRModes
-  MCRModeSet = {"latest"}
+  MCRModeSet = {"byid", "byinit"}
   InitVid = 2
   Policers = {}
   PPlans <- MCPPlans
